@@ -11,9 +11,11 @@ SPEC = dict(
         "virtual time is monotone; the clock is switched to virtual before a breaker is created",
         "the reference drop ratio for the statistical clause is the anchored SRE formula with K=1.5 and protection 5; only its frequency over >= 1000-2000 rejectable calls is compared, with very wide margins",
         "sequential histories: one call at a time per process in the model test (concurrent callers are covered by the -race run, where only schedule-independent clauses are asserted and phases are arranged so that no outcome can age out half-way through a phase)",
-        "a rejected call is recognised by req/handler/invoker not having run; the returned error of an admitted call is not compared with req's error (only 'not ErrServiceUnavailable')",
+        "a rejected call is recognised by req/handler/invoker not having run; the returned error of an admitted call is not compared with req's error except 'not ErrServiceUnavailable unless req returned it'",
         "NoBreakerFor, the contents of the error window / alert text, and gRPC codes above Unauthenticated are outside the statement and not asserted",
-        "non-status errors and raw context errors passed to codes.Acceptable are not asserted (the statement speaks about gRPC codes)",
+        "an error without a gRPC status has the code gRPC's own status.Code gives it (Unknown; a wrapped benign status its own code or Unknown) and is therefore benign; raw context.Canceled is benign; raw context.DeadlineExceeded and wrapped failing statuses are left unasserted (newer gRPC maps them to failing codes, older ones to Unknown)",
+        "HTTP: a handler that wrote status >= 500 and then panicked must count as a failure (keeps failing => cut off); for a handler that panics after writing < 500 or nothing only 'some outcome' would be required, which is not observable black-box through BreakerHandler and is not asserted",
+        "an admitted call whose req itself returns ErrServiceUnavailable must not run the fallback and must hand req's error to the caller",
     ],
     runs=[
         dict(pkg="./lib/breaker", run="^TestVerifC01(Model|TripRecover)$", **_T),
